@@ -1,5 +1,7 @@
 """Shared recognisers for messageq_t users (C04, C06, C07, C10)."""
 from ..ir import AnalysisError
+import os
+
 from .. import build, flow, paths
 from ..paths import ptr_parts, strip_casts
 
@@ -67,11 +69,45 @@ def mq_functions(mods, check=True):
         check_representation(mods)
     out = []
     for m in mods:
+        comp = composites(m)
         for fn in m.defined_functions():
+            if fn.name in comp:
+                continue
             acc = [a for a in flow.accesses(fn, m) if acc_field(a) is not None
                    and (a.struct in STRUCTS)]
             if acc:
                 out.append((m, fn, acc))
+    return out
+
+
+_COMPOSITES = {}
+
+
+def composites(m):
+    """Functions of the queue's own unit that, as written, touch the descriptor only by calling the queue's other API functions
+    (a `pop` = receive + copy + release).  The analysis view has those callees inlined into them, which would make one function
+    play two roles; the role rules are applied to the callees themselves, and the composition is examined like any other user of
+    the API (C07 R3: slot read before release)."""
+    key = (m.unit, m.config, os.environ.get("VERIF_REPO", ""))
+    if key in _COMPOSITES:
+        return _COMPOSITES[key]
+    out = set()
+    if m.unit in build.INLINE_PUBLIC_CALLEES and m.unit.endswith("messageq.c"):
+        try:
+            raw = build.load_unit(m.unit, m.config, inline_except=None)
+        except AnalysisError:
+            raw = None
+        if raw is not None:
+            for fn in raw.defined_functions():
+                if fn.internal or fn.name in INIT_FUNCS:
+                    continue
+                acc = [a for a in flow.accesses(fn, raw) if acc_field(a) is not None and a.struct in STRUCTS]
+                api_calls = [c for c in fn.calls() if isinstance(c.callee, str) and c.callee.startswith("messageq_") and raw.has_fn(c.callee)]
+                # (reading the geometry the initialiser set - msg_len, queue_len, basep - is not a protocol access)
+                proto = [a for a in acc if a.writes or acc_field(a) in ATOMIC_FIELDS + ("receivep",)]
+                if not proto and api_calls:
+                    out.add(fn.name)
+    _COMPOSITES[key] = out
     return out
 
 
